@@ -112,7 +112,37 @@ def argv_desc(draw, classes):
         flags = tdda + before + after
     else:
         flags = before + after + tdda
-    return {'flags': flags, 'names': names, 'tail': tail}
+    d = {'flags': flags, 'names': names, 'tail': tail}
+    # unittest's own -k PATTERN, given after the single-dash flags; not
+    # together with the listing option (what a narrowed listing names is
+    # not specified)
+    if not any(tdda_flag(f) and tdda_flag(f)[1] for f in flags) and draw(
+            st.integers(0, 3)) == 0:
+        d['k'] = draw(st.sampled_from(K_PATTERNS))
+        if tail == ['-W']:
+            # as after a class name: the single-dash options are over
+            tail = d['tail'] = ['--write-all']
+    # --write-all may stand anywhere among the options
+    if tail == ['--write-all']:
+        d['tail_pos'] = draw(st.sampled_from(['end', 'first',
+                                              'before-names']))
+    return d
+
+
+# (none of them can match the generated module name tvmod_<hex>)
+K_PATTERNS = ['test_a', 'test_b', 't_c', 'TestA', 'TestB.test', 'st_d',
+              'A.test_b']
+
+
+def assemble(argv, flags=None):
+    """The command line (without the program name)."""
+    flags = list(argv['flags'] if flags is None else flags)
+    k = ['-k', argv['k']] if argv.get('k') else []
+    tail = list(argv.get('tail') or [])
+    pos = argv.get('tail_pos', 'end')
+    return ((tail if pos == 'first' else []) + flags + k
+            + (tail if pos == 'before-names' else []) + list(argv['names'])
+            + (tail if pos == 'end' else []))
 
 
 @st.composite
@@ -159,6 +189,13 @@ def valid(case):
                     and any(ch in f for ch in '10W')):
                 return False
         if a['tail'] == ['-W'] and a['names']:
+            return False
+        if a.get('k') is not None and (a['k'] not in K_PATTERNS
+                                       or a['tail'] == ['-W']):
+            return False
+        if a.get('tail_pos', 'end') not in ('end', 'first', 'before-names'):
+            return False
+        if a.get('tail_pos', 'end') != 'end' and a['tail'] != ['--write-all']:
             return False
         return a['tail'] in ([], ['-W'], ['--write-all'], ['-w', 'table'],
                              ['--write', 'a,b'])
@@ -223,6 +260,10 @@ def model(desc, argv):
                 tag_tests.append('%s.%s' % (cname, m))
         if ct or any(meths.values()):
             listed.append(cname)
+    if argv.get('k'):
+        # unittest's -k: substring match on "<module>.<Class>.<method>"
+        all_tests = [t for t in all_tests if argv['k'] in '.' + t]
+        tag_tests = [t for t in tag_tests if argv['k'] in '.' + t]
     if check:
         return {'mode': 'list', 'executed': [], 'listed': sorted(listed)}
     if tagged:
@@ -253,7 +294,8 @@ def plain_argv(argv):
             out.append(f)
         elif t[2]:
             out.append(t[2])
-    return out + list(argv['names'])
+    return out + (['-k', argv['k']] if argv.get('k') else []) + list(
+        argv['names'])
 
 
 def read_log(path):
@@ -341,7 +383,14 @@ def run(case, ctx):
     with open(modpath, 'w') as f:
         f.write(module_source(desc, logpath))
     exp = model(desc, argv)
-    full_argv = [modpath] + argv['flags'] + argv['names'] + argv['tail']
+    # unittest.main(-k ...) stores the patterns on the shared default loader
+    # object; a real run is a fresh process, so start from a clean loader
+    unittest.defaultTestLoader.testNamePatterns = None
+    full_argv = [modpath] + assemble(argv)
+    if argv.get('k'):
+        out.label('-k pattern')
+    if argv.get('tail_pos', 'end') != 'end':
+        out.label('write-all-before-other-arguments')
     out.label('mode:' + exp['mode'])
     ntag = sum(len(c['tagged_methods']) + (1 if c['class_tag'] else 0)
                for c in desc['classes'])
@@ -429,7 +478,8 @@ def run(case, ctx):
                         % (shown, sorted(named), sorted(want)))
     # the pytest side of the same promise: referencepytest.tagged() on a
     # synthetic collection of this module's tests
-    if exp['mode'] in ('tagged', 'list') and not argv['names']:
+    if exp['mode'] in ('tagged', 'list') and not argv['names'] and (
+            not argv.get('k')):
         check_pytest_tagged(out, desc, mod, modname, exp)
     if case.get('subprocess'):
         out.label('subprocess-sample')
